@@ -41,11 +41,16 @@ THEOREMS = [P + n for n in (
     'fresh_producer_sep', 'fresh_producer_safe', 'copy_is_fresh',
     'shared_dict_counterexample', 'rebind_makes_shared_dict_harmless', 'transform_inplace_counterexample',
     'concat_reorders_argument', 'shared_write_interferes',
-    'fresh_producer_sep_side', 'ctor_fresh', 'ctor_safe', 'produce_content_fresh', 'ctor_content')]
+    'fresh_producer_sep_side', 'ctor_fresh', 'ctor_safe', 'produce_content_fresh', 'ctor_content',
+    'label_array_alias_counterexample')]
 RULE = ('one case = (public callable found by introspection, argument seed, history of documented '
         'in-place operations on components of the result and of the arguments); arguments are built '
-        'from the repo\'s own types by seeded factories (list- and array-valued descriptors, signed '
-        'dissimilarities, unsorted unique condition labels); a case is non-trivial when the call '
+        'from the repo\'s own types by seeded factories (list- and ndarray-valued pattern / rdm / obs / '
+        'channel descriptors of int, float and str dtype that are ascending without repeats, unsorted or '
+        'with repeats, rotating with the seed, and — for callables with a grouping-descriptor or `random` '
+        'option, found from the signature — each class selected as the grouping descriptor; signed '
+        'dissimilarities); pair sessions apply two producers to one object, chain sessions apply an '
+        'evaluation function to the data object before the call; a case is non-trivial when the call '
         'returned and at least one in-place operation was applied to a component of either side; '
         'the pseudo-case @write-sets compares the mutators\' write sets read from the source text '
         'with the Lean compile; distinct = distinct (callable, argument seed, history)')
@@ -60,6 +65,30 @@ BRANCHES = ['arg:container:0', 'arg:container:1', 'arg:container:2', 'arg:contai
             'arg:weights:2d', 'arg:weights:1d', 'arg:weights:name-2d', 'arg:weights:name-1d', 'arg:weights:none',
             'arg:sigma_k:none', 'arg:sigma_k:matrix', 'arg:sigma_k:vector',
             'arg:noise:array', 'arg:theta:array', 'arg:pattern_idx:array',
+            # round 4: ndarray-valued descriptors of every order class and dtype, in rotation with lists
+            'arg:desc:pattern:array:asc:int', 'arg:desc:pattern:array:asc:float', 'arg:desc:pattern:array:asc:str',
+            'arg:desc:pattern:array:unsorted:int', 'arg:desc:pattern:array:unsorted:float',
+            'arg:desc:pattern:array:unsorted:str', 'arg:desc:pattern:array:rep:int', 'arg:desc:pattern:array:rep:float',
+            'arg:desc:rdm:array:asc:int', 'arg:desc:rdm:array:asc:float', 'arg:desc:rdm:array:asc:str',
+            'arg:desc:rdm:array:unsorted:int', 'arg:desc:rdm:array:unsorted:float',
+            'arg:desc:rdm:array:rep:int', 'arg:desc:rdm:array:rep:float',
+            'arg:desc:obs:array:asc:int', 'arg:desc:obs:array:asc:float', 'arg:desc:obs:array:unsorted:int',
+            'arg:desc:obs:array:unsorted:float', 'arg:desc:obs:array:rep:str', 'arg:desc:obs:array:rep:float',
+            'arg:desc:channel:array:asc:int', 'arg:desc:channel:array:asc:float', 'arg:desc:channel:array:asc:str',
+            'arg:desc:channel:array:unsorted:int', 'arg:desc:channel:array:unsorted:float',
+            'arg:desc:channel:array:rep:str', 'arg:desc:channel:array:rep:float',
+            'arg:desc:pattern:list:asc:int', 'arg:desc:rdm:list:asc:int', 'arg:desc:obs:list:asc:int',
+            'arg:desc:channel:list:asc:int', 'arg:desc:index:array', 'arg:desc:index:list',
+            # ... and *selected* as the grouping descriptor of a callable that has such an option
+            'arg:sel:pattern:array:asc:int', 'arg:sel:pattern:array:asc:float', 'arg:sel:pattern:array:asc:str',
+            'arg:sel:pattern:array:unsorted:int', 'arg:sel:pattern:array:unsorted:float',
+            'arg:sel:pattern:array:rep:int', 'arg:sel:pattern:array:rep:float',
+            'arg:sel:pattern:list:asc:int', 'arg:sel:pattern:default', 'arg:sel:pattern:array:asc+shuffle',
+            'arg:sel:rdm:array:asc:int', 'arg:sel:rdm:array:asc:float', 'arg:sel:rdm:array:asc:str',
+            'arg:sel:rdm:array:unsorted:int', 'arg:sel:rdm:array:unsorted:float',
+            'arg:sel:rdm:array:rep:int', 'arg:sel:rdm:array:rep:float', 'arg:sel:rdm:list:asc:int', 'arg:sel:rdm:default',
+            'arg:random:true', 'arg:random:false', 'arg:random:default', 'session:chain', 'session:repeat',
+            'arg:value:array', 'arg:label-arg:array:asc:int', 'arg:label-arg:array:rep:str',
             'tie:write-sets', 'tie:ctor-specs', 'tie:ctor:getitem', 'tie:ctor:subset', 'tie:ctor:subsample',
             'tie:ctor:subset_pattern', 'tie:ctor:subsample_pattern', 'tie:ctor:copy', 'tie:ctor:concat',
             'call:returned', 'call:raised', 'side:result-op', 'side:source-op',
@@ -140,7 +169,7 @@ def coverage_report():
 
 
 def _key(case):
-    return (case['fn'], case.get('with'), case['seed'], repr(case.get('hist')), case.get('hseed'),
+    return (case['fn'], case.get('with'), case.get('pre'), case['seed'], repr(case.get('hist')), case.get('hseed'),
             case.get('max_steps'), case.get('shuffle_all'))
 
 
@@ -166,9 +195,18 @@ def _call(case):
         kind2, fn2, owner2 = callables()[q2]
         _, args2, kwargs2 = A.build_call(q2, case['seed'])
         source = dict(source, args=list(args) + [None, list(args2), dict(kwargs2)])
-    before = H.fingerprint(source)
     exc = None
     result = None
+    # the library draws from numpy's global generator (shuffles, bootstrap samples): the draw
+    # sequence is part of the case, so that a replay reproduces the very same call
+    np.random.seed((case['seed'] * 1000003 + 17) % (2 ** 32))
+    q0 = case.get('pre')
+    if q0:
+        # chain session: another value-returning operation has been applied to the *same* data
+        # object before (it may leave the object in a normalised state — `index` as an ndarray,
+        # cached attributes); what it returned is dropped, the object is then the argument of fn
+        _pre_call(q0, case['seed'], full)
+    before = H.fingerprint(source)
     try:
         with contextlib.redirect_stdout(io.StringIO()):
             result = A.invoke(kind, fn, owner, q, self_obj, args, kwargs)
@@ -186,6 +224,59 @@ def _call(case):
     mutated = None if before == after else (H.fp_diff(before, after) or 'changed')
     _call.all_diffs = [] if before == after else H.fp_diffs(before, after)
     return source, result, exc, mutated
+
+
+def _top_rdms(full):
+    """the RDMs / dataset objects passed at top level (self, positional, keyword), in that order"""
+    tops = [full.get('self')] + list(full.get('args', [])) + list(full.get('kwargs', {}).values())
+    return [x for x in tops if H.kind_of(x)]
+
+
+def _pre_call(q0, seed, full):
+    """apply q0 (built from the same seed, so models and options fit) with its first RDMs / dataset
+       argument replaced by the first one of `full`; exceptions of q0 are irrelevant here"""
+    target = _top_rdms(full)
+    if not target:
+        return
+    kind0, fn0, owner0 = callables()[q0]
+    self0, args0, kwargs0 = A.build_call(q0, seed)
+    want = H.kind_of(target[0])
+    done = False
+    if H.kind_of(self0) == want:
+        self0, done = target[0], True
+    for i, a in enumerate(args0):
+        if not done and H.kind_of(a) == want:
+            args0[i], done = target[0], True
+    for k, a in list(kwargs0.items()):
+        if not done and H.kind_of(a) == want:
+            kwargs0[k], done = target[0], True
+    if not done:
+        return
+    try:
+        with contextlib.redirect_stdout(io.StringIO()):
+            A.invoke(kind0, fn0, owner0, q0, self0, args0, kwargs0)
+    except Exception:  # noqa: BLE001
+        pass
+
+
+def chain_families(cov):
+    """(targets, preludes) of the chain sessions, by introspection: every exercised function of
+       rsatoolbox.inference that receives an RDMs object at top level; preludes are those among
+       them that evaluate models on data (`models` first parameter)"""
+    targets, pres = [], []
+    for q in cov:
+        if not q.startswith('rsatoolbox.inference.') or callables()[q][0] != 'function':
+            continue
+        try:
+            self_obj, args, kwargs = A.build_call(q, 1)
+        except Exception:  # noqa: BLE001
+            continue
+        if not _top_rdms({'self': self_obj, 'args': args, 'kwargs': kwargs}):
+            continue
+        targets.append(q)
+        if A.params_of(q)[:1] == ['models']:
+            pres.append(q)
+    return targets, pres
 
 
 def _plan_history(case, sides, rng, cells=None):
@@ -371,7 +462,10 @@ def generate(rng, tier):
     n_sets = 6 if tier == 'quick' else 24
     for q in cov:
         base = rng.randrange(1, 10 ** 6)
-        for k in range(n_sets):
+        # callables with a grouping-descriptor / `random` option: 12 consecutive seeds = every
+        # (list | ndarray) x (int | float | str) x (ascending selected, random=True | default /
+        # unsorted / repeats selected, random=False / absent) combination once
+        for k in range(max(n_sets, 12) if A.has_desc_options(q) else n_sets):
             # consecutive seeds: the factories rotate their discrete choices with the seed
             yield {'fn': q, 'seed': base + k, 'hseed': rng.randrange(10 ** 6)}
     # pair sessions: two different producers applied to the same object; result 1 is checked
@@ -385,6 +479,19 @@ def generate(rng, tier):
                 base = rng.randrange(1, 10 ** 6)
                 for k in range(2 if tier == 'quick' else 6):
                     yield {'fn': q1, 'with': fam[j], 'seed': base + k, 'hseed': rng.randrange(10 ** 6)}
+            # the same producer twice with equal arguments (a memoised result would be handed out twice)
+            base = rng.randrange(1, 10 ** 6)
+            for k in range(1 if tier == 'quick' else 6):
+                yield {'fn': q1, 'with': q1, 'seed': base + k, 'hseed': rng.randrange(10 ** 6)}
+    # chain sessions: fn is applied to a data object that an evaluation function has seen before
+    targets, pres = chain_families(cov)
+    for i, q in enumerate(targets):
+        chosen = pres if tier == 'thorough' else \
+            [pres[(i + j + rng.randrange(len(pres))) % len(pres)] for j in range(2)] if pres else []
+        for q0 in dict.fromkeys(chosen):
+            base = rng.randrange(1, 10 ** 6)
+            for k in range(2 if tier == 'quick' else 6):
+                yield {'fn': q, 'pre': q0, 'seed': base + k, 'hseed': rng.randrange(10 ** 6)}
     if tier == 'thorough':
         # short histories in a *random* order (no "writes first" discipline)
         for q in cov:
@@ -573,12 +680,13 @@ def oracle(case):
        The reported violation carries `share_key` = callable | argument path | result path | cause."""
     if case['fn'] in PSEUDO:
         return None     # a changed write set / constructor spec is not itself a violation; run_check then searches
-    o = observe(case)
+    o = _obs(case)      # calls are deterministic (numpy's generator is seeded per case): one observation per case
     fn = label(case)
+    ctx = f' (after {case["pre"].rsplit(".", 1)[1]} was applied to the same object)' if case.get('pre') else ''
     if o['mutated']:
         recs = _unknown_first(fn, mutation_records(fn, o.get('mutated_all') or [o['mutated']]))
         r = recs[0]
-        return {'what': f'{fn} modifies its argument', 'observed': r[0],
+        return {'what': f'{fn} modifies its argument{ctx}', 'observed': r[0],
                 'expected': 'arguments bit-identical after the call',
                 'features': {'fn': fn, 'kind': 'mutates-argument', 'cause': r[2], 'share_key': S.key(fn, r),
                              'all_changed': [x[0] for x in recs][:8]}}
@@ -638,7 +746,9 @@ def features(case, impl):
         if not ks:
             br.append('result:scalar-or-other')
     if case.get('with'):
-        br.append('session:pair')
+        br.append('session:repeat' if case['with'] == case['fn'] else 'session:pair')
+    if case.get('pre'):
+        br.append('session:chain')
     if o.get('ctor'):
         br.append('tie:ctor:' + o['ctor']['req']['ctor'])
     for r in o['share']:
@@ -655,7 +765,7 @@ def nontrivial_key(case, impl):
     o = _obs(case)
     if o['exc'] is not None or not o['hist']:
         return None
-    return [label(case), case['seed'], [(s['side'], s['ci'], s['op']) for s in o['hist']]]
+    return [label(case), case.get('pre'), case['seed'], [(s['side'], s['ci'], s['op']) for s in o['hist']]]
 
 
 def shrink(case, still_fails):
